@@ -75,7 +75,7 @@ class CT:
             return CT(name, self)
         if name in ('mean', 'sum', 'any', 'all', 'min', 'max', 'std', 'median', 'first', 'copy', 'round', 'tolist',
                     'dropna', 'drop_duplicates', 'reset_index', 'sort_index', 'sort_values', 'astype', 'apply',
-                    'isna', 'notna', 'abs'):
+                    'isna', 'notna', 'abs', 'to_numpy', 'to_list'):
             return _M(self, name)
         return TOP
 
@@ -94,8 +94,8 @@ class _M:
         self.t, self.name = t, name
 
     def pqv_call(self, *a, **k):
-        if self.name in ('copy',):
-            return self.t
+        if self.name in ('copy', 'to_numpy', 'to_list', 'tolist'):
+            return self.t                       # representation changes keep the column
         if self.name == 'apply':
             f = a[0] if a else k.get('func')
             return CT('apply', self.t, _fname(f))
